@@ -544,6 +544,18 @@ fn run_xls(text: &str, drv: &mut Driver, extras: bool) -> Outcome {
     let mut book = gen_book(bseed);
     book.globals_head = head.clone();
     book.globals_tail = tail.clone();
+    // optional 7th field `name=<stream name>` ("Book" = BIFF5-style container entry); 8th `sheetfp=1` puts a
+    // FILEPASS-typed record into the first sheet substream (not in the globals: must not be reported)
+    if let Some(n) = f.get(6).and_then(|x| x.strip_prefix("name=")) {
+        book.stream_name = n.to_string();
+    }
+    if f.get(7) == Some(&"sheetfp=1") {
+        if let Some(sh) = book.sheets.first_mut() {
+            sh.cells.insert(0, xlsw::XlsCell::raw(0x002F, vec![1, 0, 1, 0, 1, 0]));
+            out.count("xls:filepass-typed-record-in-sheet");
+        }
+    }
+    out.count(format!("xls:stream-name={}", book.stream_name));
     let mut rng = Rng::new(ls);
     let mut wb = book.workbook_stream(&mut rng);
     let all: Vec<(u16, Vec<u8>)> = head.iter().chain(tail.iter()).cloned().collect();
@@ -686,7 +698,8 @@ fn gen_xls(rng: &mut Rng) -> String {
         }
     }
     let bseed = if rng.chance(1, 4) { 0 } else { rng.below(1 << 30) + 1 };
-    format!("xls;{};b{};{};{};scr={}", gen_copts(rng, false), bseed, recs_text(&head), recs_text(&tail), rng.chance(1, 2) as u8)
+    let name = if rng.chance(1, 6) { "Book" } else { "Workbook" };
+    format!("xls;{};b{};{};{};scr={};name={};sheetfp={}", gen_copts(rng, false), bseed, recs_text(&head), recs_text(&tail), rng.chance(1, 2) as u8, name, (!encrypted && rng.chance(1, 3)) as u8)
 }
 
 fn gen_xlsraw(rng: &mut Rng) -> String {
@@ -1344,9 +1357,9 @@ fn main() {
         "C20",
         "encrypted OOXML packages (compound files from cfbw: v3/v4, shuffled/fragmented, free sectors, DIFAT, EncryptedPackage of \
          0..70000 bytes in the mini stream or in regular sectors, EncryptionInfo standard/agile/extensible headers + arbitrary bytes, \
-         DataSpaces streams; near-miss names as negatives) opened with Xlsx::new and Xlsb::new; BIFF8 workbooks from xlsw with a \
+         DataSpaces streams; near-miss names as negatives; one in ten truncated or with one byte overwritten: impl vs model only) opened with Xlsx::new and Xlsb::new; BIFF8 workbooks from xlsw with a \
          FILEPASS record (wEncryptionType 0 / 1 RC4 / 1 CryptoAPI / other / truncated) first after BOF, after other globals records, \
-         or last before EOF, rest of the stream optionally replaced by noise, plus globals streams laid out by the Lean encoder; \
+         or last before EOF, stream named Workbook or Book, rest of the stream optionally replaced by noise, a FILEPASS-typed record inside a sheet substream as a negative, plus globals streams laid out by the Lean encoder; \
          ods packages whose manifest (0..40 entries, encryption-data in any subset of them, other children, comments, white space, \
          unusual root names, optionally truncated) is serialized from a logical description; conversely random unencrypted workbooks \
          of the four formats from the shared writers and every fixture of /repo/tests. impl = the reader's constructor result class, \
@@ -1354,7 +1367,7 @@ fn main() {
          Outside the generator: manifests with a namespace prefix other than `manifest:`, compound files with storages as a tree. \
          non-trivial = encrypted case, or unencrypted generated workbook / fixture; distinct by description text",
     );
-    rep.notes.push("C20: `encrypted_package_detected_rel` is relative to C13's `Cfb.new_layout_ok` (CfbNewOnLayouts); the zip reader, quick-xml tokenisation and the record arms other than FILEPASS/EOF are not modelled".into());
+    rep.notes.push("C20: the container theorems rest on C13's compound-file model and round-trip lemmas (Lemmas/Cfb.lean); the zip reader, quick-xml tokenisation and the record arms other than FILEPASS/EOF are not modelled".into());
     let mut cases: Vec<String> = vec![];
     if let Some(inp) = &args.replay {
         cases.push(inp.clone());
